@@ -7,7 +7,7 @@ LEAN_TARGETS = ['LLTD.Props.C13']
 VARIANT = 'plain'
 RULE = ('band_update_stats / band_choose_hello_time on band states set through the public struct: r dense at '
         '{0..20, 9768..9772, 65535..65537, 2^k and 2^k±1, 2^32-1} x prior Ni x begun, plus seeded random r; thorough adds '
-        'a strided sweep of the whole 32-bit range; non-trivial = Ni changed; distinct = distinct (r, begun, Ni before) triple')
+        'a strided sweep of the whole 32-bit range; plus automata_tick on band states whose Hello and block deadlines expire together or apart (the block end inside the tick); non-trivial = Ni changed; distinct = distinct (r, begun, Ni before) triple')
 ASSUMPTIONS = ['time stamps stay below 2^63 ms (no uint64_t wrap-around of now + interval)']
 project = ident
 
@@ -50,6 +50,24 @@ def cases(rng, tier, X):
             ops.append('clock %d' % rng.choice([0, 299, 300, 301]))
             ops.append(rng.choice(['band update 0', 'band dohello 0', 'band choose 0', 'band update 0']))
         out.append(('seq%d' % k, ops))
+    # the tick itself: enumeration in Pausing with an incomplete session, Hello deadline and block deadline expired
+    # together / separately, the last transmit recent or long ago, every wiring of the port
+    for k in range(60 if tier == 'quick' else 6000):
+        ops = ['fsm new 0 map', 'fsm new 1 enum', 'tbl new 0', 'tbl add 0 020000000011 1 1', 'clock %d' % rng.choice([5000, 100000])]
+        now = int(ops[-1].split()[1])
+        for _ in range(rng.randint(1, 8)):
+            now += rng.choice([0, 1, 100, 299, 300, 301, 999, 1000, 1001, 5000])
+            ops.append('clock %d' % now)
+            ops.append('fsm set 1 1 %d' % (now // 1000))
+            r = rng.choice([0, 1, 2, 3, 5, 9, 14, 15, 16, 100, 70000, rng.randrange(2**32)])
+            ni = rng.choice([45, 45, 180, 10000, rng.randrange(45, 10001)])
+            hts = rng.choice([0, 1, now - 1, now, now + 1, now + 500])
+            bts = rng.choice([0, 1, now - 1, now, now + 1, now + 200])
+            ops.append('band set 1 %d %d %d %d %d' % (ni, r, rng.choice([1, 1, 0]), max(hts, 0), max(bts, 0)))
+            ops.append('tick 0 1 0 %s' % rng.choice(['wired', 'wired', 'nolast', 'none']))
+            if rng.random() < 0.5:
+                ops.append('band heard 1')
+        out.append(('tick%d' % k, ops))
     return out
 
 
